@@ -185,7 +185,7 @@ mod probes {
         use crate::utils::SerializeMsgPack;
 
         fn bpe_from(merges: &[(Vec<u8>, u32)], tag: &str) -> anyhow::Result<BPETokenizer> { bpe_from_limit(merges, tag, None) }
-        fn bpe_from_limit(merges: &[(Vec<u8>, u32)], tag: &str, max_vocab_size: Option<usize>) -> anyhow::Result<BPETokenizer> {
+        pub fn bpe_from_limit(merges: &[(Vec<u8>, u32)], tag: &str, max_vocab_size: Option<usize>) -> anyhow::Result<BPETokenizer> {
             let mut m: MergeOps = HashMap::new();
             for (k, v) in merges {
                 m.insert(k.clone(), *v);
@@ -1214,9 +1214,64 @@ mod probes {
 
     include!("more_probes.rs");
 
+    // ------------------------------------------------------------------------------- C02
+    mod c02 {
+        use super::*;
+        use crate::tokenization::*;
+
+        /// the assumed contract of merge_bytes, through tokenize / de_tokenize: every id is a vocabulary id and decoding
+        /// (special tokens ignored on both sides) gives the text without its trailing whitespace
+        pub fn check(merges: &[(Vec<u8>, u32)], limit: Option<usize>, text: &str) -> Result<(), String> { check_with(None, merges, limit, text) }
+        fn check_with(cached: Option<&BPETokenizer>, merges: &[(Vec<u8>, u32)], limit: Option<usize>, text: &str) -> Result<(), String> {
+            let what = format!("BPE(merges={:?}, max_vocab_size={limit:?})", merges.iter().map(|(k, v)| (String::from_utf8_lossy(k).to_string(), *v)).collect::<Vec<_>>());
+            let built;
+            let t = match cached { Some(t) => t, None => { built = super::c04::bpe_from_limit(merges, "c02", limit).map_err(|e| e.to_string())?; &built } };
+            let r = std::panic::catch_unwind(std::panic::AssertUnwindSafe(|| t.tokenize(text, true)));
+            let tok = match r { Err(_) => return Err(format!("{what}.tokenize({text:?}) panics")), Ok(Err(e)) => return Err(format!("{what}.tokenize({text:?}) failed: {e}")), Ok(Ok(t)) => t };
+            let n = t.vocab_size() as u32;
+            if let Some(id) = tok.token_ids.iter().find(|id| **id >= n) { return Err(format!("{what}.tokenize({text:?}) emits id {id}, vocabulary size {n}")); }
+            let back = t.de_tokenize(&tok.token_ids, true).map_err(|e| format!("{what}: decoding the ids of {text:?} failed (not well-formed UTF-8?): {e}"))?;
+            let want = text.trim_end();
+            if back != want { return Err(format!("{what}: decoding tokenize({text:?}) gives {back:?}, expected the text without trailing whitespace {want:?}")); }
+            Ok(())
+        }
+        pub fn replay(input: &Value) -> Result<(), String> {
+            let merges: Vec<(Vec<u8>, u32)> = input["merges"].as_array().ok_or("merges")?.iter().map(|e| (e[0].as_str().unwrap().as_bytes().to_vec(), e[1].as_u64().unwrap() as u32)).collect();
+            check(&merges, input["max_vocab_size"].as_u64().map(|x| x as usize), input["text"].as_str().unwrap_or(""))
+        }
+        /// BOUND: 7 merge tables (incl. multi-level, overlapping, whitespace-prefixed and multi-byte merges) x truncating
+        /// max_vocab_size x every text of at most 5 pieces from {a, b, c, space, U+00E4, newline}
+        pub fn search_all() -> (Vec<(Value, String, String)>, usize) {
+            let tables: Vec<Vec<(&str, u32)>> = vec![
+                vec![], vec![("ab", 0)], vec![("ab", 0), ("abc", 1)], vec![("ab", 0), ("bc", 1), ("abc", 2)],
+                vec![("aa", 0), ("aaa", 1), ("aaaa", 2), (" a", 3)], vec![(" a", 0), (" ab", 1), ("ca", 2)], vec![("\u{e4}", 0), ("a\u{e4}", 1), ("bb", 2)],
+            ];
+            let texts = all_texts(&["a", "b", "c", " ", "\u{e4}", "\n"], 5);
+            let mut found: Vec<(Value, String, String)> = vec![];
+            let mut cases = 0usize;
+            for tb in &tables {
+                let merges: Vec<(Vec<u8>, u32)> = tb.iter().map(|(k, v)| (k.as_bytes().to_vec(), *v)).collect();
+                for limit in [None, Some(260 + tb.len() / 2)] {
+                    let tok = super::c04::bpe_from_limit(&merges, "c02", limit).ok();
+                    for text in &texts {
+                        cases += 1;
+                        if let Err(e) = check_with(tok.as_ref(), &merges, limit, text) {
+                            if found.is_empty() {
+                                let m: Vec<Value> = tb.iter().map(|(k, v)| json!([k, v])).collect();
+                                found.push((json!({"merges": m, "max_vocab_size": limit, "text": text}), e, "lossless".to_string()));
+                            }
+                        }
+                    }
+                }
+            }
+            (found, cases)
+        }
+    }
+
     fn dispatch_replay(prop: &str, input: &Value) -> Result<(), String> {
         match prop {
             "C01" => c01::replay(input),
+            "C02" => c02::replay(input),
             "C04" => c04::replay(input),
             "C12" => c12::replay(input),
             "C07" => c07::replay(input),
@@ -1236,6 +1291,7 @@ mod probes {
     fn dispatch_search(prop: &str) -> Option<(Value, String)> {
         match prop {
             "C01" => c01::search(),
+            "C02" => c02::search_all().0.into_iter().next().map(|(i, e, _)| (i, e)),
             "C04" => c04::search(),
             "C12" => c12::search(),
             "C07" => c07::search(),
@@ -1278,6 +1334,7 @@ mod probes {
                     "C01" => c01::search_all(),
                     "C17" => c17::search_all(),
                     "C13" => c13::search_all(),
+                    "C02" => c02::search_all(),
                     "C18" => c18::search_all(),
                     "C16" => c16::search_all(),
                     "C11" => c11::search_all(),
